@@ -149,6 +149,8 @@ pub struct Model {
     /// candidate -> (addresses the debugger installed, breakpoint numbers)
     pub enabled: BTreeMap<usize, (Vec<u64>, Vec<u64>)>,
     pub lost: bool,
+    /// signals of the reference trace (by delivery index) already accounted for
+    pub sig_seen_upto: usize,
 }
 
 impl Model {
@@ -206,6 +208,7 @@ pub struct Oracles {
     pub teardown: bool,   // C11
     pub steps: bool,      // C03
     pub bt: bool,         // C05
+    pub signals: bool,    // C10
 }
 
 pub struct Finding {
@@ -250,8 +253,9 @@ pub fn check_output(p: &Prog, cands: &[Cand], m: &Model, path: &[Action], out: &
 }
 
 #[allow(clippy::too_many_arguments)]
-fn apply_inner(p: &Prog, cands: &[Cand], m: &mut Model, a: &Action, k: usize, o: &Value, res: &Value, ok: bool, or: &Oracles, prop: &str, f: &mut Vec<Finding>, hist: &dyn Fn(usize) -> String, t: &RefTrace) {
+fn apply_inner(p: &Prog, cands: &[Cand], m: &mut Model, a: &Action, k_idx: usize, o: &Value, res: &Value, ok: bool, or: &Oracles, prop: &str, f: &mut Vec<Finding>, hist: &dyn Fn(usize) -> String, t: &RefTrace) {
     let _ = cands;
+    let k = k_idx;
     {
         match a {
             Action::Add(c) => {
@@ -284,6 +288,7 @@ fn apply_inner(p: &Prog, cands: &[Cand], m: &mut Model, a: &Action, k: usize, o:
                 if matches!(a, Action::Restart) {
                     m.idx = None;
                     m.exited = false;
+                    m.sig_seen_upto = 0;
                 }
                 if m.exited || (!m.started && matches!(a, Action::Continue)) {
                     // must fail, nothing changes
@@ -295,8 +300,45 @@ fn apply_inner(p: &Prog, cands: &[Cand], m: &mut Model, a: &Action, k: usize, o:
                 m.started = true;
                 let from = m.idx.map(|i| i + 1).unwrap_or(0);
                 let set = m.addr_set();
-                let expect = (from..t.steps.len()).find(|&j| set.contains(&t.steps[j].pc));
+                let mut expect = (from..t.steps.len()).find(|&j| set.contains(&t.steps[j].pc));
                 let kind = res["kind"].as_str().unwrap_or("");
+                // non-quiet signals stop the program: the stop happens in the state just before the
+                // handler's first instruction (signal-delivery-stop), unless a breakpoint comes first
+                const QUIET: [i32; 6] = [14, 23, 17, 29, 26, 27];
+                let next_sig = t.signals.iter().find(|(k, sig)| *k >= 1 && *k - 1 >= from.saturating_sub(1) && *k > m.sig_seen_upto && !QUIET.contains(sig));
+                if let Some((k, sig)) = next_sig {
+                    let at = *k - 1;
+                    if expect.map(|j| at < j).unwrap_or(true) {
+                        // expected: SignalStop(sig)
+                        m.sig_seen_upto = *k;
+                        if !(ok && kind == "signal" && res["sig"].as_i64() == Some(*sig as i64)) {
+                            if or.signals {
+                                f.push(Finding { sig: format!("{prop}:signal-stop-not-reported:{sig}:got-{}", if kind.is_empty() { res["err"].as_str().unwrap_or("?") } else { kind }), detail: format!("[{}] {}: signal {sig} is delivered at trace index {at}, debugger reported {res}", p.name(), hist(k_idx)) });
+                            }
+                            m.lost = true;
+                            return;
+                        }
+                        let real = &o["real"];
+                        let located = locate(t, at.saturating_sub(2), real);
+                        if or.signals {
+                            let evs = o["events"].as_array().map(|v| v.iter().filter(|e| e["ev"] == "signal" && e["sig"].as_i64() == Some(*sig as i64)).count()).unwrap_or(0);
+                            if evs != 1 {
+                                f.push(Finding { sig: format!("{prop}:on_signal-hook-count-{evs}"), detail: format!("[{}] {}", p.name(), hist(k_idx)) });
+                            }
+                            if res["tid"].as_i64() != o["pid"].as_i64() {
+                                f.push(Finding { sig: format!("{prop}:signal-reported-for-wrong-thread"), detail: format!("[{}] {}: {res}", p.name(), hist(k_idx)) });
+                            }
+                        }
+                        m.idx = located.or(Some(at));
+                        return;
+                    }
+                }
+                if kind == "signal" && or.signals {
+                    f.push(Finding { sig: format!("{prop}:unexpected-signal-stop:{}", res["sig"]), detail: format!("[{}] {}: {res}, but no non-quiet signal is due before the next stop", p.name(), hist(k_idx)) });
+                    m.lost = true;
+                    return;
+                }
+                let _ = &mut expect;
                 match expect {
                     Some(j) => {
                         let want_pc = t.steps[j].pc;
@@ -367,8 +409,29 @@ fn apply_inner(p: &Prog, cands: &[Cand], m: &mut Model, a: &Action, k: usize, o:
                 } else if let Some(real) = o.get("real") {
                     let from = m.idx.map(|i| i + 1).unwrap_or(0);
                     let no_debug_info_here = before.map(|i| p.depth(i) == 0).unwrap_or(true);
+                    // a step cut short by a signal: the stop is the signal-delivery state of the next
+                    // signal of the reference execution (matched by pc and sp; the register image
+                    // at that point legitimately differs between a stepped and a free-running run)
+                    let sig_ev = o["events"].as_array().and_then(|v| v.iter().find(|e| e["ev"] == "signal").and_then(|e| e["sig"].as_i64()));
+                    let by_signal = sig_ev.and_then(|sg| {
+                        t.signals.iter().find(|(k, s2)| *k > m.sig_seen_upto && *s2 as i64 == sg && *k >= 1).and_then(|(k, _)| {
+                            let st = &t.steps[*k - 1];
+                            if Some(st.pc) == real["pc"].as_u64() && Some(st.sp) == real["sp"].as_u64() { Some(*k) } else { None }
+                        })
+                    });
+                    if let Some(k) = by_signal {
+                        m.idx = Some(k - 1);
+                        m.sig_seen_upto = k;
+                    } else {
                     match locate(t, from, real) {
-                        Some(j) => m.idx = Some(j),
+                        Some(j) => {
+                            m.idx = Some(j);
+                            for (k, _) in &t.signals {
+                                if *k <= j + 1 {
+                                    m.sig_seen_upto = m.sig_seen_upto.max(*k);
+                                }
+                            }
+                        }
                         None => {
                             // outside the traced window (before main), or in code without debug
                             // information where step commands are unspecified, or lost
@@ -376,6 +439,7 @@ fn apply_inner(p: &Prog, cands: &[Cand], m: &mut Model, a: &Action, k: usize, o:
                                 m.lost = true;
                             }
                         }
+                    }
                     }
                 }
                 if or.steps {
@@ -607,6 +671,13 @@ fn check_bt(p: &Prog, i: usize, bt: &[Value], fi: &Value, prop: &str, f: &mut Ve
             detail: format!("[{}] {hist}: at trace index {i} (pc {pc:#x}) backtrace ips {:x?}; real call chain (innermost first) {:x?}", p.name(), got, &want[..decidable]),
         });
     }
+    // these programs' entry stub has no unwind information: nothing can follow main's caller
+    if got.len() > decidable + 1 {
+        f.push(Finding {
+            sig: format!("{prop}:bt:extra-frames-below-main"),
+            detail: format!("[{}] {hist}: {} frames reported, the real chain has {} (+1 for main's caller at most); tail {:x?}", p.name(), got.len(), decidable, &got[decidable..got.len().min(decidable + 4)]),
+        });
+    }
     if let (Some(cfa), Some(top)) = (fi["cfa"].as_u64(), st.last()) {
         if fi["num"].as_u64() == Some(0) {
             if cfa != top.cfa {
@@ -645,14 +716,15 @@ pub fn canon(m: &Model, last_obs: Option<&Value>) -> String {
         .map(|v| v.iter().filter_map(|e| e["addr"].as_u64()).collect())
         .unwrap_or_default();
     format!(
-        "{}|{}|{:?}|{:?}|{:x?}|{:x?}|{}",
+        "{}|{}|{:?}|{:?}|{:x?}|{:x?}|{}|{}",
         m.started,
         m.exited,
         m.idx,
         m.enabled.keys().collect::<Vec<_>>(),
         diff,
         bps,
-        m.lost
+        m.lost,
+        m.sig_seen_upto
     )
 }
 
@@ -1041,11 +1113,12 @@ pub fn candidates(p: &Prog, n: usize) -> Vec<Cand> {
 
 pub fn oracles_for(prop: &str) -> Oracles {
     match prop {
-        "C01" => Oracles { projection: true, text: false, output: false, teardown: false, steps: false, bt: false },
-        "C03" => Oracles { projection: false, text: false, output: false, teardown: false, steps: true, bt: false },
-        "C05" => Oracles { projection: false, text: false, output: false, teardown: false, steps: false, bt: true },
-        "C02" => Oracles { projection: false, text: true, output: true, teardown: false, steps: false, bt: false },
-        _ => Oracles { projection: true, text: true, output: true, teardown: true, steps: true, bt: true },
+        "C01" => Oracles { projection: true, text: false, output: false, teardown: false, steps: false, bt: false, signals: false },
+        "C03" => Oracles { projection: false, text: false, output: false, teardown: false, steps: true, bt: false, signals: false },
+        "C05" => Oracles { projection: false, text: false, output: false, teardown: false, steps: false, bt: true, signals: false },
+        "C10" => Oracles { projection: true, text: true, output: true, teardown: false, steps: false, bt: false, signals: true },
+        "C02" => Oracles { projection: false, text: true, output: true, teardown: false, steps: false, bt: false, signals: false },
+        _ => Oracles { projection: true, text: true, output: true, teardown: true, steps: true, bt: true, signals: true },
     }
 }
 
